@@ -185,7 +185,14 @@ class XmlMetaBuilder:
         Yields:
             An iterator of the field binding metadata instances.
         """
-        type_hints = get_type_hints(clazz, globalns=self.globalns)
+        try:
+            type_hints = get_type_hints(clazz, globalns=self.globalns)
+        except (NameError, AttributeError) as e:
+            # The class may have been selected by a document, e.g. xsi:type
+            raise XmlContextError(
+                f"Failed to resolve the type hints of {clazz.__qualname__}: {e}"
+            ) from e
+
         builder = XmlVarBuilder(
             class_type=self.class_type,
             default_xml_type=self.default_xml_type(clazz),
